@@ -127,7 +127,7 @@ func TestCheck(t *testing.T) {
 		n    int
 	}
 	const chunk = 500
-	for _, s := range []src{{"dense", gen.Dense, r.N(240000, 2400000)}, {"sparse", gen.Sparse, r.N(160000, 1600000)}, {"adv", gen.Adv, r.N(400000, 4000000)}} {
+	for _, s := range []src{{"raw-ep", gen.RawEP, r.N(40000, 400000)}, {"dense", gen.Dense, r.N(240000, 2400000)}, {"sparse", gen.Sparse, r.N(160000, 1600000)}, {"adv", gen.Adv, r.N(400000, 4000000)}} {
 		ev.Parallel(s.n/chunk, func(wk, i int) {
 			w := ws[wk]
 			rng := r.RNG("c01-"+s.name, i)
